@@ -69,6 +69,14 @@ def script_hash(lines):
 def gen_family(fam, feats, seed, n, outdir, length=None):
     """Write n seeded scripts of one family; returns list of paths and the op-kind distribution."""
     paths, dist = [], {}
+    if fam == "exh":
+        # bounded-exhaustive: n is the length of the action sequences (not a count)
+        for i, lines in enumerate(gen.exhaustive_scripts(n, feats)):
+            p = os.path.join(outdir, "exh_%06d.scn" % i)
+            with open(p, "w") as f:
+                f.write("\n".join(lines) + "\n")
+            paths.append(p)
+        return paths, {"exhaustive_length": n, "exhaustive_scripts": len(paths)}
     for i in range(n):
         lines, stats = gen.gen_script(seed * 100003 + i * 7919 + hash_fam(fam), fam, length=length, feats=feats)
         p = os.path.join(outdir, "%s_%05d.scn" % (fam, i))
@@ -104,6 +112,9 @@ def run_family_set(pid, cfg, tier, seed):
     for (fam, feats, n) in cfg["families"]:
         # real-time scripts cost wall-clock time: scale them less
         n_scale = min(n_scale0, 8) if fam == "block" else n_scale0
+        if fam == "exh":
+            # sequences of length n in the quick tier, n + 1 in the thorough tier
+            n, n_scale = (n + 1 if tier == "thorough" else n), 1
         feats = tuple(sorted(feats))
         key = hashlib.sha256(json.dumps([vlib.repo_hash(), vlib.harness_hash(), vlib.hash_files([gen.__file__]),
                                          fam, feats, seed, n * n_scale, tier,
